@@ -113,6 +113,7 @@ type Exec struct {
 	divMemo   map[string][2]Term
 	nnVars    map[int]bool // solver constants known to be >= 0 on the current path
 	rawKeys   map[*Obj]Value // byte buffers holding a KeyCodec-encoded key (kept structural)
+	LabelFinding map[string]string // assert label -> known-finding id it is split by (ndAssertK)
 	constMemo map[string]Term
 	addrHex   map[string][]Term
 	constAtoms map[string]int64
